@@ -45,7 +45,9 @@ import (
 )
 
 func init() {
-	register(&Engine{Name: "iso", Gen: genIso, NewExec: func() Exec { return &isoExec{} }})
+	// the race-instrumented twin is compiled when the executor is created (outside the per-op watchdog: the build alone can
+	// take minutes on a loaded machine)
+	register(&Engine{Name: "iso", Gen: genIso, NewExec: func() Exec { x := &isoExec{}; x.race.build(); return x }})
 }
 
 // ---------------------------------------------------------------- schedule-controlling db wrapper
